@@ -73,7 +73,9 @@ static void wait_reply(void)
 /* returns the call's return value; errno set; out receives up to outcap reply bytes */
 static long vk_do(struct req *r, void *out, int outcap, int *outlen, long *aout)
 {
-  if (!sl) { rawmsg("vk shim: call before attach\n"); rawexit(99); }
+  if (!sl) { char m[] = "vk shim: call 00 before attach\n"; m[14] = '0' + (r->op / 10) % 10; m[15] = '0' + r->op % 10; rawmsg(m); rawexit(99); }
+  /* paths beyond PATH_MAX and argument lists beyond the slot size get the answer a real kernel gives for over-long ones */
+  if (r->inlen > VK_BUFSZ) { errno = r->op == VK_EXEC ? E2BIG : ENAMETOOLONG; return -1; }
   for (;;) {
     post(r);
     wait_reply();
@@ -224,7 +226,7 @@ int link(const char *a, const char *b) { return two_paths(VK_LINK, a, b); }
 int rename(const char *a, const char *b) { return two_paths(VK_RENAME, a, b); }
 int unlink(const char *p) { REQ(VK_UNLINK); r.in = p; r.inlen = strlen(p) + 1; return vk_do(&r, 0, 0, 0, 0); }
 int chdir(const char *p) { REQ(VK_CHDIR); r.in = p; r.inlen = strlen(p) + 1; return vk_do(&r, 0, 0, 0, 0); }
-int mkdir(const char *p, mode_t m) { REQ(VK_MKDIR); r.a[0] = m; r.in = p; r.inlen = strlen(p) + 1; return vk_do(&r, 0, 0, 0, 0); }
+int mkdir(const char *p, mode_t m) { if (!sl) return syscall(SYS_mkdir, p, m); /* the sanitizer runtime prepares its log directory before main */ REQ(VK_MKDIR); r.a[0] = m; r.in = p; r.inlen = strlen(p) + 1; return vk_do(&r, 0, 0, 0, 0); }
 int mkfifo(const char *p, mode_t m) { REQ(VK_MKFIFO); r.a[0] = m; r.in = p; r.inlen = strlen(p) + 1; return vk_do(&r, 0, 0, 0, 0); }
 mode_t umask(mode_t m) { REQ(VK_UMASK); r.a[0] = m; return vk_do(&r, 0, 0, 0, 0); }
 int pipe(int fds[2])
